@@ -989,6 +989,9 @@ def eval_dyad_split(a, b, backend):
     b = backend.str_to_chr_arr(b) if j else b
 
     a = a if bknp.isarray(a) else [a]
+    for size in a:
+        if size <= 0:
+            raise RangeError(size) # the segments would never advance
     p, q = 0, 0
     r = []
     while q < len(b):
